@@ -482,6 +482,10 @@ def c05_run(ctx: Ctx):
             # ... or by the same model after a refactoring of its intermediates (identical derivative lines)
             cases.append({"text": gen.refactored(m, ctx.rng).text(ctx.rng), "sibling": True})
             ctx.count("refactored_siblings")
+        else:
+            # ... or after an edit of right-hand sides that keeps names and the names each line reads
+            cases.append({"text": gen.edited(m, ctx.rng).text(ctx.rng), "sibling": True})
+            ctx.count("edited_siblings")
         for case in cases:
             with common.time_limit(ctx, 40):
                 c05_case(ctx, case)
